@@ -368,3 +368,81 @@ func H_C13_file_partial_write() {
 		verifReach("C13.file.partial.ok")
 	}
 }
+
+// ---- histories of a FileSink from a fresh directory: the C08 statement itself ------------------------------------------
+//
+// H operations — write an event, Reopen, external rename of the active file to a rotated name followed by Reopen — under a
+// symbolic configuration (MaxBytes, MaxFiles 0..2, MaxDuration, TimestampOnlyOnRotate) and a symbolic clock. After every
+// step, reading the sink's files from oldest to newest yields the acknowledged events in order, each exactly once and whole;
+// with a retention limit what remains is a suffix of that sequence. Event texts are distinct literals, so the contents of
+// the ghost files are concrete strings and only configuration, sizes vs limits and time are symbolic.
+var fsHistEvents = [5]string{"<e0>\n", "<event-1>\n", "<e2>\n", "<ev-3>\n", "<e4>\n"}
+
+func fsHistRead() string {
+	all := ""
+	for _, n := range globRotated() {
+		c, _ := readFile(n)
+		all += c
+	}
+	if c, ok := readFile(fsActive); ok {
+		all += c
+	}
+	return all
+}
+
+func H_C08_history() {
+	fsInit()
+	s := &FileSink{Path: fsDir, FileName: "audit.log", Format: "custom", Mode: 0600}
+	s.MaxBytes = nondetInt()
+	s.MaxFiles = symLen(0, 2)
+	s.MaxDuration = time.Duration(nondetInt())
+	verifAssume(s.MaxDuration >= 0)
+	s.TimestampOnlyOnRotate = nondetBool()
+	var acked []string
+	H := verifParam("H")
+	for i := 0; i < H; i++ {
+		op := symLen(0, 2)
+		verifNoteInt("op", op)
+		switch op {
+		case 0:
+			e := &Event{Type: "t", Formatted: map[string][]byte{"custom": []byte(fsHistEvents[i])}}
+			_, err := s.Process(context.Background(), e)
+			verifAssert(err == nil, "C08.history.acknowledged")
+			if err == nil {
+				acked = append(acked, fsHistEvents[i])
+			}
+		case 1:
+			verifAssert(s.Reopen() == nil, "C08.history.reopen-succeeds")
+		case 2:
+			if s.f != nil {
+				// an external tool moves the active file aside under a rotated name, then asks the sink to reopen
+				os.Rename(s.f.Name(), stamped(int(time.Now().UnixNano())))
+				verifAssert(s.Reopen() == nil, "C08.history.reopen-after-rename-succeeds")
+			}
+		}
+		all := fsHistRead()
+		want := ""
+		for _, a := range acked {
+			want += a
+		}
+		if s.MaxFiles == 0 {
+			verifAssert(all == want, "C08.history.files-hold-exactly-the-acknowledged-sequence")
+		} else {
+			ok := all == want
+			suffix := want
+			for _, a := range acked {
+				suffix = suffix[len(a):]
+				if all == suffix {
+					ok = true
+				}
+			}
+			verifAssert(ok, "C08.history.files-hold-a-suffix-of-the-acknowledged-sequence")
+			// the newest event is never the one that retention removes
+			if len(acked) > 0 {
+				last := acked[len(acked)-1]
+				verifAssert(len(all) >= len(last) && all[len(all)-len(last):] == last, "C08.history.newest-acknowledged-event-present")
+			}
+		}
+	}
+	verifReach("C08.history.end")
+}
